@@ -70,10 +70,10 @@ func main() {
 	rnd := hx.NewRand(hx.Seed() + 202)
 
 	cs := &hx.Cases{
-		Header: "From FoxBase Require Import Bytes.\nFrom FoxRoute Require Import Node Lookup Spec Tree MapSpec CorrHist.\n",
-		Type:   "hcase",
-		Footer: "Definition mism := Eval vm_compute in h_mismatches cases.\nPrint mism.\n" +
-			"Definition viol := Eval vm_compute in h_violations cases.\nPrint viol.\n" +
+		Header: "From FoxBase Require Import Bytes.\nFrom FoxRoute Require Import Node Lookup Spec Tree MapSpec CorrHist Iter CorrIter.\n",
+		Type:   "c2case",
+		Footer: "Definition mism := Eval vm_compute in c2_mismatches cases.\nPrint mism.\n" +
+			"Definition viol := Eval vm_compute in c2_violations cases.\nPrint viol.\n" +
 			"Definition oof : list nat := [].\nPrint oof.\n",
 	}
 	st := &hx.Stats{Rule: "histories of 5-40 steps over a pool of 5-12 patterns drawn to collide (shared prefixes, same position with different wildcard names, hostnames splitting at labels) on methods GET/POST/FOO/BAR (plus invalid methods), steps = Handle/Update/Delete/Truncate (about 30% duplicate/missing/invalid) issued directly or inside transactions ended by Commit or Abort; non-trivial = history with at least one successful write and one failed call; distinct = distinct step sequences"}
@@ -161,6 +161,21 @@ func main() {
 				method = hx.Pick(rnd, []string{"", "get", "G3T"})
 			}
 			pat := hx.Pick(rnd, pool)
+			if (kind == "KDelete" || kind == "KUpdate") && rnd.Pct(55) {
+				// aim at a registered route of the visible state
+				var regs [][2]string
+				it := f.Iter()
+				if w.txn != nil {
+					it = w.txn.Iter()
+				}
+				for m, r := range it.All() {
+					regs = append(regs, [2]string{m, r.Pattern()})
+				}
+				if len(regs) > 0 {
+					e := hx.Pick(rnd, regs)
+					method, pat = e[0], e[1]
+				}
+			}
 			if rnd.Pct(5) {
 				pat = hx.Pick(rnd, []string{"", "a", "/{", "/*{}", "/a{x}b", "/{x}{y}", "/*{a}/*{b}", "a..b/", "-a/"})
 			}
@@ -252,9 +267,47 @@ func main() {
 		if w.txn != nil {
 			w.txn.Abort()
 		}
-		cs.Add(hx.List(ops), strings.Join(human, " ; "))
+		cs.Add("(CHist "+hx.List(ops)+")", strings.Join(human, " ; "))
 		if okWrites > 0 && fails > 0 {
 			nontrivial++
+		}
+		// read-API case on the final published tree of this history
+		{
+			var set, qs, hq []string
+			var regs [][2]string
+			for m, r := range f.Iter().All() {
+				set = append(set, hx.Pair(hx.Bytes(m), hx.Bytes(r.Pattern())))
+				regs = append(regs, [2]string{m, r.Pattern()})
+			}
+			var ms []string
+			for m := range f.Iter().Methods() {
+				ms = append(ms, m)
+			}
+			qs = append(qs, "(QMethods "+hx.ListOf(ms, hx.Bytes)+")")
+			for k := 0; k < 14; k++ {
+				m, p := hx.Pick(rnd, methods), hx.Pick(rnd, pool)
+				if len(regs) > 0 && rnd.Pct(50) {
+					e := hx.Pick(rnd, regs)
+					m, p = e[0], e[1]
+				}
+				if perr := func() error { _, _, e := f.VerifParseRoute(p); return e }(); perr != nil {
+					continue
+				}
+				has := f.Has(m, p)
+				qs = append(qs, "(QHas "+hx.Bytes(m)+" "+hx.Bytes(p)+" "+hx.Bool(has)+")")
+				hq = append(hq, fmt.Sprintf("Has(%s,%q)=%v", m, p, has))
+				st.Count(fmt.Sprintf("has:%v", has))
+				pre := p[:rnd.Intn(len(p)+1)]
+				var got []string
+				for _, r := range f.Iter().Prefix(func(yield func(string) bool) { yield(m) }, pre) {
+					got = append(got, r.Pattern())
+				}
+				qs = append(qs, "(QPrefix "+hx.Bytes(m)+" "+hx.Bytes(pre)+" "+hx.ListOf(got, hx.Bytes)+")")
+				hq = append(hq, fmt.Sprintf("Prefix(%s,%q)=%v", m, pre, got))
+				st.Count(fmt.Sprintf("prefix-hits:%d", min(len(got), 5)))
+			}
+			term := "(CIter {| ic_tree := " + rt.RootsTerm(f.VerifDump(), nil) + "; ic_set := " + hx.List(set) + "; ic_queries := " + hx.List(qs) + " |})"
+			cs.Add(term, fmt.Sprintf("registered=%v queries: %s", regs, strings.Join(hq, " ; ")))
 		}
 		if len(st.Samples) < 3 {
 			st.Samples = append(st.Samples, strings.Join(human, " ; "))
